@@ -13,8 +13,9 @@ import ast
 from typing import Dict, List, Optional, Tuple
 
 from ..index import AnalysisError, ClassInfo, call_name, dotted, norm, norm1, names_in, parent_map
+from ..sem import Sem
 from .attrs import class_str_attr, fold_class_list, undefined_self_attrs
-from .common import calls, enclosing, enclosing_all, fctx, is_name, method_calls, stmts
+from .common import calls, const_of, enclosing, enclosing_all, fctx, is_name, method_calls, pmatch, stmts
 
 LEVEL = "other"
 EXPLANATION = (
@@ -110,21 +111,28 @@ def _resolve_data_ref(du, cfg, sub: ast.Subscript, at: int) -> Optional[List[str
     return out
 
 
-def _writer_layout(f):
+def _writer_layout(f, idx=None):
     cfg, du, pm = fctx(f)
+    S = Sem(idx, f) if idx is not None else None
     header_fields = None
     data_layout = None
     columns = None
     for c in method_calls(f.node, "write"):
-        if not c.args or not isinstance(c.args[0], ast.JoinedStr):
+        if not c.args:
             continue
         js = c.args[0]
-        fvs = [v for v in js.values if isinstance(v, ast.FormattedValue)]
         at = du.node_of_expr(c)
+        if isinstance(js, ast.Call) and S is not None:
+            # a line produced by a private one-expression helper: look at the helper's f-string with the arguments substituted
+            js = S._inline(js, at, 6, set(), False) or js
+        if not isinstance(js, ast.JoinedStr):
+            continue
+        fvs = [v for v in js.values if isinstance(v, ast.FormattedValue)]
+        lpm = parent_map(js)
         data_subs = []
         for v in fvs:
             for s in ast.walk(v.value):
-                if isinstance(s, ast.Subscript) and not (isinstance(pm.get(s), ast.Subscript) and pm[s].value is s):
+                if isinstance(s, ast.Subscript) and not (isinstance(lpm.get(s), ast.Subscript) and lpm[s].value is s):
                     flat = _resolve_data_ref(du, cfg, s, at)
                     if flat is not None:
                         data_subs.append((s, flat))
@@ -149,29 +157,84 @@ def _writer_layout(f):
     return header_fields, data_layout, columns
 
 
-def _reader_layout(f):
+def _reader_layout(f, idx=None):
+    """(header names, reshape dims, axis permutation applied after the reshape) of a from_w90_file reader, read off the
+    resolved `data=` argument of the object it returns (transpose / swapaxes / trailing column selection are composed)."""
     cfg, du, pm = fctx(f)
+    S = Sem(idx, f)
     header = None
     for s in stmts(f.node):
         if isinstance(s, ast.Assign) and isinstance(s.targets[0], ast.Tuple) and isinstance(s.value, ast.Call) \
                 and call_name(s.value) in ("np.array", "numpy.array") and s.value.args \
-                and ".split()" in norm(s.value.args[0]):
+                and ".split()" in S.rnorm(s.value.args[0], cfg.node(s)):
             header = [norm(t) for t in s.targets[0].elts]
-    reshape = None
+    ctor = [c for c in ast.walk(f.node) if isinstance(c, ast.Call) and any(k.arg == "data" for k in c.keywords) and
+            (norm(c.func) == "cls" or (isinstance(c.func, ast.Name) and f.cls is not None and c.func.id == f.cls.name))]
+    if len(ctor) != 1:
+        raise AnalysisError(f"{f.short}: the constructor call with data=… was not found")
+    dv = next(k.value for k in ctor[0].keywords if k.arg == "data")
+    at = du.node_of_expr(ctor[0])
+    def step(x_, at_):
+        """one def-use step for a plain local name: (value expression, node of the definition)"""
+        if isinstance(x_, ast.Name):
+            d_ = du.single_def(x_.id, at_)
+            if d_ is not None and d_.kind == "assign" and d_.value is not None:
+                return d_.value, d_.node
+        return None
+    e = dv
+    while isinstance(e, ast.Name) and step(e, at) is not None:
+        e, at = step(e, at)
+    if isinstance(e, ast.DictComp):
+        # {ik: arr[ik] for ik in selected}: per-k view of arr
+        kv = norm(e.key)
+        v = e.value
+        if isinstance(v, ast.Subscript) and norm(v.slice) == kv:
+            e = v.value
+        else:
+            raise AnalysisError(f"{f.short}: data dictionary is not {{ik: array[ik] …}}")
     perm = None
-    for c in method_calls(f.node, "reshape"):
-        args = list(c.args[0].elts) if len(c.args) == 1 and isinstance(c.args[0], ast.Tuple) else list(c.args)
-        dims = [norm(a) for a in args]
-        if len(dims) >= 2 and all(isinstance(a, (ast.Name, ast.Constant)) for a in args) and any(isinstance(a, ast.Name) for a in args):
-            p = pm.get(c)
-            tr = None
-            if isinstance(p, ast.Attribute) and p.attr == "transpose" and isinstance(pm.get(p), ast.Call):
-                tc = pm[p]
-                targs = list(tc.args[0].elts) if len(tc.args) == 1 and isinstance(tc.args[0], ast.Tuple) else list(tc.args)
-                tr = [ast.literal_eval(a) for a in targs]
-            # prefer the reshape that carries the data (first with ≥ 2 named dims)
-            if reshape is None or (tr is not None and perm is None):
-                reshape, perm = dims, tr
+    reshape = None
+    x = e
+    for _ in range(8):
+        if isinstance(x, ast.Call) and isinstance(x.func, ast.Attribute):
+            a, args = x.func.attr, x.args
+            if a == "transpose":
+                targs = list(args[0].elts) if len(args) == 1 and isinstance(args[0], ast.Tuple) else list(args)
+                p_ = [ast.literal_eval(t) for t in targs]
+                perm = p_ if perm is None else [p_[i] for i in perm]
+                x = x.func.value
+                continue
+            if a == "swapaxes" and len(args) == 2:
+                i_, j_ = ast.literal_eval(args[0]), ast.literal_eval(args[1])
+                n_ = max(i_, j_, *(perm or [0])) + 1
+                p_ = list(range(max(n_, 4)))
+                p_[i_], p_[j_] = p_[j_], p_[i_]
+                perm = p_ if perm is None else [p_[i] for i in perm]
+                x = x.func.value
+                continue
+            if a == "reshape":
+                dargs = list(args[0].elts) if len(args) == 1 and isinstance(args[0], ast.Tuple) else list(args)
+                reshape = [norm(d) for d in dargs]
+                break
+            if a in ("copy", "astype"):
+                x = x.func.value
+                continue
+        if isinstance(x, ast.Subscript) and isinstance(x.slice, ast.Tuple) and all(isinstance(q, ast.Slice) and q.lower is None and q.upper is None for q in x.slice.elts[:-1]) \
+                and isinstance(x.slice.elts[-1], ast.Constant):
+            x = x.value   # trailing column selection [:, :, c]
+            continue
+        if isinstance(x, ast.Name):
+            nx = step(x, at)
+            if nx is None:
+                break
+            x, at = nx
+            continue
+        break
+    if perm is not None and reshape is not None:
+        named = [d for d in reshape if not d.isdigit()]
+        perm = [p_ for p_ in perm if p_ < len(named)] if len(perm) > len(named) else perm
+        if perm == list(range(len(perm))):
+            perm = None
     return header, reshape, perm, f
 
 
@@ -277,7 +340,8 @@ def run(ctx) -> None:
     to_npz = idx.function(W90 + "wandata.py", "WannierData.to_npz")
     from_npz = idx.function(W90 + "wandata.py", "WannierData.from_npz")
     tw, tr = norm(to_npz.node), norm(from_npz.node)
-    if "val.extension" not in tw or "cls.extension" not in tr:
+    if not any(isinstance(n, ast.Attribute) and n.attr == "extension" for n in ast.walk(to_npz.node)) or \
+            not any(isinstance(n, ast.Attribute) and n.attr == "extension" for n in ast.walk(from_npz.node)):
         raise AnalysisError("WannierData.to_npz/from_npz no longer build file names from `.extension`")
     exts: Dict[str, str] = {}
     for k, v in zip(fc[0].keys, fc[0].values):
@@ -299,6 +363,13 @@ def run(ctx) -> None:
     sext = class_str_attr(idx, sym, "extension")
     lit = [n.value for n in ast.walk(from_npz.node) if isinstance(n, ast.Constant) and isinstance(n.value, str)
            and n.value.endswith(".npz") and n.value.startswith(".")]
+    FS_ = Sem(idx, from_npz)
+    for c_ in method_calls(from_npz.node, "from_npz"):
+        if c_.args:
+            for alt in FS_.alternatives(c_.args[0], FS_.du.node_of_expr(c_)):
+                txt_ = norm(alt)
+                if sext is not None and (f"'.' + '{sext}' + '.npz'" in txt_ or f"'.{sext}' + '.npz'" in txt_):
+                    lit.append(f".{sext}.npz")
     r4.instance("SymmetrizerSAWF ↔ '.sawf.npz'")
     r4.check(sext is not None and f".{sext}.npz" in lit, f"symmetrizer is written as .{sext}.npz and read from {lit}",
              from_npz, from_npz.node, f"WannierData.to_npz writes the symmetrizer as '.{sext}.npz' but from_npz reads {lit}",
@@ -313,8 +384,8 @@ def run(ctx) -> None:
         if rd is None:
             raise AnalysisError(f"{cn}.from_w90_file vanished")
         r5.instance(f"{cn}: {w.short} ↔ {rd.short}")
-        whead, (loops, index, wcall), columns = _writer_layout(w)
-        rhead, reshape, perm, _ = _reader_layout(rd)
+        whead, (loops, index, wcall), columns = _writer_layout(w, idx)
+        rhead, reshape, perm, _ = _reader_layout(rd, idx)
         lvars = [v for v, _, _ in loops]
         lsizes = [s for _, s, _ in loops]
         for v, sz, dis in loops:
@@ -340,7 +411,7 @@ def run(ctx) -> None:
     # EIG columns: col c ↔ size name
     eigc = idx.cls(W90 + "eig.py", "EIG")
     rd = eigc.methods["from_w90_file"]
-    _, (loops, index, wcall), columns = _writer_layout(eigc.methods["to_w90_file"])
+    _, (loops, index, wcall), columns = _writer_layout(eigc.methods["to_w90_file"], idx)
     size_of = {v: sz for v, sz, _ in loops}
     colmap = {}
     for s in stmts(rd.node):
@@ -358,11 +429,52 @@ def run(ctx) -> None:
     beq = base.methods.get("equals")
     if beq is None:
         raise AnalysisError("W90_file.equals vanished")
-    bt = norm(beq.node)
     r6.instance(beq.short)
-    for need in ("self.NK != other.NK", "self.NB != other.NB", "set(self.data.keys())", "np.allclose(self.data[i], other.data[i]"):
-        r6.check(need in bt, f"W90_file.equals compares `{need}`", beq, beq.node,
-                 f"W90_file.equals no longer checks `{need}`: objects differing there compare equal", stmt=need)
+    ES = Sem(idx, beq)
+    oth = beq.params[1]
+
+    def false_return_under(cmp_pred) -> bool:
+        """an `if <cond>: return False, …` whose (resolved) condition satisfies cmp_pred"""
+        for n in ast.walk(beq.node):
+            if isinstance(n, ast.If) and n.body and isinstance(n.body[-1], ast.Return) and n.body[-1].value is not None:
+                rv = n.body[-1].value
+                first = rv.elts[0] if isinstance(rv, ast.Tuple) and rv.elts else rv
+                if const_of(first) is False and cmp_pred(ES.resolve(n.test, ES.cfg.node(n))):
+                    return True
+        return False
+
+    def differs(a_txt, b_txt):
+        def pred(t):
+            for c_ in ast.walk(t):
+                if isinstance(c_, ast.Compare) and len(c_.ops) == 1 and isinstance(c_.ops[0], ast.NotEq):
+                    l_, r_ = norm(c_.left), norm(c_.comparators[0])
+                    if (l_ in a_txt and r_ in b_txt) or (l_ in b_txt and r_ in a_txt):
+                        return True
+            return False
+        return pred
+    for dim in ("NK", "NB"):
+        r6.check(false_return_under(differs((f"self.{dim}",), (f"{oth}.{dim}",))), f"W90_file.equals compares {dim}", beq, beq.node,
+                 f"W90_file.equals no longer returns False when self.{dim} != {oth}.{dim}: objects differing there compare equal", stmt=f"self.{dim} != other.{dim}")
+    ks_s = ("set(self.data.keys())", "set(self.data)", "self.data.keys()", "sorted(self.data)", "sorted(self.data.keys())")
+    ks_o = tuple(x.replace("self.", f"{oth}.") for x in ks_s)
+    r6.check(false_return_under(differs(ks_s, ks_o)), "W90_file.equals compares the sets of stored k-points", beq, beq.node,
+             "W90_file.equals no longer returns False when the two objects store different sets of k-points", stmt="set(self.data.keys())")
+
+    def data_differs(t):
+        for c_ in ast.walk(t):
+            if isinstance(c_, ast.Call) and call_name(c_) in ("np.allclose", "numpy.allclose") and len(c_.args) >= 2:
+                a_, b_ = norm(c_.args[0]), norm(c_.args[1])
+                m1 = pmatch(c_.args[0], "self.data[K_]", {"K_"})
+                m2 = pmatch(c_.args[1], f"{oth}.data[K_]", {"K_"})
+                m3 = pmatch(c_.args[1], "self.data[K_]", {"K_"})
+                m4 = pmatch(c_.args[0], f"{oth}.data[K_]", {"K_"})
+                for x, y in ((m1, m2), (m3, m4)):
+                    if x and y and x[0][1]["K_"] == y[0][1]["K_"]:
+                        return True
+        return False
+    neg_allclose = false_return_under(lambda t: isinstance(t, ast.UnaryOp) and isinstance(t.op, ast.Not) and data_differs(t.operand))
+    r6.check(neg_allclose, "W90_file.equals compares the data of every stored k-point (np.allclose)", beq, beq.node,
+             "W90_file.equals no longer returns False when the data at some k-point differ", stmt="np.allclose(self.data[i], other.data[i]")
     for fn, cn, dim in (("amn.py", "AMN", "NW"), ("mmn.py", "MMN", "NNB")):
         c = idx.cls(W90 + fn, cn)
         m = c.methods.get("equals")
@@ -371,7 +483,16 @@ def run(ctx) -> None:
             r6.violation(f"{W90 + fn}:{cn}", c.node, f"{cn} has no equals(): {dim} is never compared", stmt=f"{cn}.equals")
             continue
         t = norm(m.node)
-        r6.check("super().equals(" in t and f"self.{dim} != other.{dim}" in t,
+        MS_ = Sem(idx, m)
+        sup = [c_ for c_ in ast.walk(m.node) if isinstance(c_, ast.Call) and norm(c_.func) == "super().equals"]
+        chained = False
+        for n in ast.walk(m.node):
+            if isinstance(n, ast.If) and n.body and isinstance(n.body[-1], ast.Return) and sup:
+                tt = MS_.rnorm(n.test, MS_.cfg.node(n))
+                rv_ = MS_.rnorm(n.body[-1].value, MS_.cfg.node(n.body[-1])) if n.body[-1].value is not None else ""
+                if tt in (f"not {norm(sup[0])}[0]",) and norm(sup[0]) in rv_:
+                    chained = True
+        r6.check(chained and f"self.{dim} != {m.params[1]}.{dim}" in t,
                  f"{cn}.equals chains to the base and compares {dim}", m, m.node,
                  f"{cn}.equals does not (chain to W90_file.equals and compare {dim})", stmt=f"{cn}.equals")
 
